@@ -1516,22 +1516,34 @@ def rule_eval(rows, prop):
                 findings.append(finding("R-EVAL.copy", prop, r, "loop", "expected exactly one element copy in the evaluator loop, found %d" % len(copies))); continue
             c = copies[0]
             lhs, rhs = sub(c["a"]), sub(c["b"])
-            want_l = "nmtools::apply_at($output,nmtools::index::ndindex(%s)[%%i])" % SHAPE_O
-            want_r = "nmtools::apply_at(this.view,nmtools::index::ndindex(%s)[%%i])" % SHAPE_V
-            if lhs != want_l or rhs != want_r:
+            # one induction variable, whatever its name; the two shapes were found equal before the loop, so either may
+            # parametrise either ndindex
+            ml = re.fullmatch(r"nmtools::apply_at\(\$output,nmtools::index::ndindex\((.+?)\)\[%(\w+)\]\)", lhs)
+            mr = re.fullmatch(r"nmtools::apply_at\(this\.view,nmtools::index::ndindex\((.+?)\)\[%(\w+)\]\)", rhs)
+            iv = ml.group(2) if ml else "i"
+            if not (ml and mr and ml.group(2) == mr.group(2) and ml.group(1) in (SHAPE_O, SHAPE_V) and mr.group(1) in (SHAPE_O, SHAPE_V)):
                 findings.append(finding("R-EVAL.copy", prop, r, "%s = %s" % (c["a"], c["b"]), "element copy is %s = %s; expected output[ndindex(shape(output))[i]] = view[ndindex(shape(view))[i]] with one induction variable" % (lhs, rhs), c.get("line")))
             loops = [f for f in facts if f["k"] == "loop"]
             bound = sub(loops[0]["b"])
-            if bound != "(%%i < nmtools::index::ndindex(%s).size())" % SHAPE_V:
+            cn = _cmp_norm(bound.replace(" ", ""), 1)
+            ok_bounds = ["nmtools::index::ndindex(%s).size()" % SHAPE_V, "nmtools::index::ndindex(%s).size()" % SHAPE_O]
+            if not (cn and cn[0] == "<" and cn[1] == "%" + iv and cn[2] in ok_bounds):
                 findings.append(finding("R-EVAL.bound", prop, r, loops[0]["b"], "copy loop runs while %s, expected i < ndindex(shape(view)).size()" % bound, loops[0].get("line")))
-            want_g = "(!nmtools::utils::isequal(%s,%s))" % (SHAPE_O, SHAPE_V)
-            g = set((sub(x["cond"]).replace(" ", ""), x["pol"]) for x in expand_guards(c.get("g", [])))
-            if (want_g, 0) not in g:
+            EQ = ("nmtools::utils::isequal(%s,%s)" % (SHAPE_O, SHAPE_V), "nmtools::utils::isequal(%s,%s)" % (SHAPE_V, SHAPE_O))
+            def shapes_equal_edges(facts_g):
+                # edges on which isequal(shape(output), shape(view)) is known to hold (1) / not to hold (0), negations peeled
+                out_ = set()
+                for x in expand_guards(facts_g):
+                    c_, p_ = _strip_not(sub(x["cond"]).replace(" ", ""), x["pol"])
+                    if c_ in EQ:
+                        out_.add(p_)
+                return out_
+            if 1 not in shapes_equal_edges(c.get("g", [])):
                 findings.append(finding("R-EVAL.guard", prop, r, c["a"], "element copy is not preceded by the shape-equality test of output and view", c.get("line")))
             rets = [f for f in facts if f["k"] == "return"]
             for rt in rets:
                 gr = set((sub(x["cond"]).replace(" ", ""), x["pol"]) for x in expand_guards(rt.get("g", [])))
-                if (want_g, 1) not in gr:
+                if 0 not in shapes_equal_edges(rt.get("g", [])):
                     findings.append(finding("R-EVAL.guard", prop, r, "return", "early return of the evaluator is not the shape-mismatch exit; guards: %s" % sorted(gr)[:3], rt.get("line")))
             if len(samples) < 2:
                 samples.append("R-EVAL %s = %s" % (lhs, rhs))
